@@ -8,11 +8,11 @@ import (
 )
 
 var (
-	tabOnce   sync.Once
-	tabBase   [256]Point // entry 8i+j = [(j+1) * 256^i] B
-	tabOddB   [64]Point  // entry j = [2j+1] B
-	tabOddB128 [64]Point // entry j = [2j+1] [2^128] B
-	ptB128    Point      // [2^128] B
+	tabOnce    sync.Once
+	tabBase    [256]Point // entry 8i+j = [(j+1) * 256^i] B
+	tabOddB    [64]Point  // entry j = [2j+1] B
+	tabOddB128 [64]Point  // entry j = [2j+1] [2^128] B
+	ptB128     Point      // [2^128] B
 )
 
 func buildTables() {
